@@ -25,7 +25,8 @@ kf    : a judged failure carries a known-finding tag ONLY IF the start was prist
 nan   : from the first `compromise` step whose operand has an amino acid of total weight 0 onwards the result
         contains int(NaN), which Go leaves to the platform: from there on traces are compared up to the code
         (letters, triplets, start/stop codons) only.
-ood   : a coding sequence with a non-ASCII character is outside the property's domain (ASSUMPTIONS): not judged.
+Non-ASCII letters are ordinary judged input (framing by letters, /repo 053f18d); class suffix /non-ascii.
+What is assumed of strings.ToUpper outside ASCII is stated in Model/CodonTables.lean and gen/c08.py.
 -/
 namespace PolyVerif.Driver.C08
 open PolyVerif PolyVerif.Codon PolyVerif.CodonTables
@@ -137,8 +138,8 @@ def judgeHist (ids : String) (toks : List String) (out : List String) : Verdict 
       let ascii := hist.all fun o => match o with | .reweight _ s => asciiStr s | _ => true
       let nrew := (hist.filter fun o => match o with | .reweight _ _ => true | _ => false).length
       let known := !pass && cleanStart && !lin && corr
-      let cls := (if nrew == 0 then "triv:" else "") ++ (if ascii then "hist/" else "ood:non-ascii/hist/")
-        ++ (if lin then "linear" else "nonlinear")
+      let cls := (if nrew == 0 then "triv:" else "") ++ "hist/"
+        ++ (if lin then "linear" else "nonlinear") ++ (if ascii then "" else "/non-ascii")
         ++ (if known then "/kf:" ++ kfId reported.length (ValueTables.breaks reported hist) else "")
         ++ (if !cleanStart then "/start-not-pristine" else "")
         ++ (if relax < hist.length then "/nan" else "")
@@ -150,7 +151,7 @@ def judgeHist (ids : String) (toks : List String) (out : List String) : Verdict 
             ((heapTrace[firstDiff relax impl heapTrace]?).map showObs |>.getD "-") ++ " " else "") ++
         (if !valOk then "value spec differs at step " ++ toString (firstDiff relax impl valTrace) ++ ": " ++
             ((valTrace[firstDiff relax impl valTrace]?).map showObs |>.getD "-") else "")
-      { corr, judge := if ascii then some pass else none, cls, detail := d }
+      { corr, judge := some pass, cls, detail := d }
     | st :: _ => { corr := false, judge := some false, cls := "hist/" ++ st, detail := "implementation did not complete the history" }
     | [] => { corr := false, judge := some false, cls := "hist/missing", detail := "no reply" }
 
